@@ -101,11 +101,39 @@ def run(pid: str, tier: str, seed: int) -> int:
     ctx.coverage_extra["theorems"] = [n.split(".")[-1] for n in names]
     # 4./5. correspondence and always-on search against the real code
     mod = importlib.import_module(f"props.{pid.lower()}")
-    mod.run(ctx, extended=bool(ctx.broken))
+    try:
+        mod.run(ctx, extended=bool(ctx.broken))
+    except Exception:  # noqa: BLE001
+        # An exception raised INSIDE the implementation (deepest frame under /repo's tree, also when it travelled through a worker
+        # process) on the in-contract inputs of a sweep is a finding about the code under test, not a harness problem: it is reported
+        # as a violation with the traceback as replay.  Anything raised by the harness's own code stays a harness error (exit 2).
+        tb = traceback.format_exc()
+        if not _raised_in_implementation(tb):
+            raise
+        print(tb[-3000:])
+        ctx.fail("implementation", "implementation_raised", "the implementation raised on an in-contract input of the sweep: " + tb.strip().split("\n")[-1][:300],
+                 {"traceback": tb[-6000:]}, {"error": tb.strip().split("\n")[-1][:120]})
     if (ctx.disagreements or ctx.broken) and not ctx.failures and hasattr(mod, "search"):
         mod.search(ctx)
     # 6./7.
     return finish(ctx, level=level)
+
+
+def _raised_in_implementation(tb: str) -> bool:
+    """does the deepest frame that belongs to either the harness or the code under test belong to the code under test?"""
+    import re
+    repo, harness = str(common.REPO.resolve()), str(common.VERIF.resolve())
+    # a chained traceback prints the original exception first (the remote traceback of a worker process, then "The above exception
+    # was the direct cause of …" and the parent's own frames): only the original one says where the error was raised
+    first = re.split(r"\n(?:The above exception was the direct cause|During handling of the above exception)", tb, 1)[0]
+    last = None
+    for m in re.finditer(r'File "([^"]+)", line \d+', first):
+        f = m.group(1)
+        if f.startswith(repo + os.sep) and not f.startswith(harness + os.sep):
+            last = "impl"
+        elif f.startswith(harness + os.sep):
+            last = "harness"
+    return last == "impl"
 
 
 def replay(path: str) -> int:
